@@ -133,13 +133,13 @@ def run(R):
                 continue
             for cl in closures_passed(F, gv, t):
                 names = {x["ncallee"] for x in cl.calls}
-                if is_retain and (PAD + "::is_valid") in names:
+                if (PAD + "::is_valid") in names:      # the authenticity predicate, whether handed to retain or to filter
                     nt += 1
                     tt = closure_truth_table(cl, lambda b, c: "A", call_atoms={PAD + "::is_valid": "V"})
                     if tt is None or any(v != (dict(k).get("A", False) and dict(k).get("V", False)) for k, v in tt[1].items()):
                         okt = False
                         R.viol("C15.vault.split.exact", "retain-predicate", "the split candidates are not kept exactly when owned by the requested key and validly signed", cl, cl.lines[0])
-                if is_filter and (PAD + "::count") in names:
+                elif (PAD + "::count") in names:       # the latest-version predicate
                     nt += 1
                     tt = closure_truth_table(cl, lambda b, c: "E")
                     if tt is None or any(v != dict(k).get("E", False) for k, v in tt[1].items()):
